@@ -60,14 +60,13 @@ class MultipleOf(Validator):
 
     def _validate(self, value: Any):
         multiple_of = self.params["multipleOf"]
-        if isinstance(multiple_of, float):
-            try:
+        try:
+            if isinstance(multiple_of, float):
                 quotient = value / multiple_of
                 is_multiple = int(quotient) == quotient
-            except OverflowError:
-                is_multiple = False
-            if not is_multiple:
-                raise ValidationError
-            return
-        if value % multiple_of:
+            else:
+                is_multiple = not value % multiple_of
+        except OverflowError:
+            is_multiple = False
+        if not is_multiple:
             raise ValidationError
